@@ -281,6 +281,10 @@ func (m *Mast) flush(ctx context.Context) (string, error) {
 	if node.isEmpty() {
 		return "", nil
 	}
+	// (checked before the writers are started: nothing would stop them)
+	if !m.unmarshalerUsesRegisteredTypes && (m.zeroKey == nil || m.zeroValue == nil) {
+		return "", errors.New("will not be able to figure out which type to unmarshal entries as; set RemoteConfig.{Keys,Values}Like or UnmarshalerUsesRegisteredTypes")
+	}
 	storeQ := make(chan func() error)
 	n := 40
 	gate := make(chan interface{}, n)
@@ -320,10 +324,6 @@ func (m *Mast) flush(ctx context.Context) (string, error) {
 		}
 		wg.Done()
 	}()
-
-	if !m.unmarshalerUsesRegisteredTypes && (m.zeroKey == nil || m.zeroValue == nil) {
-		return "", errors.New("will not be able to figure out which type to unmarshal entries as; set RemoteConfig.{Keys,Values}Like or UnmarshalerUsesRegisteredTypes")
-	}
 
 	versionedMarshaler := func(i interface{}) ([]byte, error) {
 		switch m.nodeFormat {
